@@ -12,7 +12,8 @@ F_DROP = "C11-stale-shardkey-after-dropped-row"
 F_SKI = "C11-stale-shardkey-across-groups"
 F_HINT = "C11-hint-query-ignores-shardkey"
 BB_SHARDKEYS = {"cpu": ["host"], "mem": ["region"], "net": ["dc", "host"], "disk": []}   # as created by cmd/c11bb
-NV = 32
+F_HINT_RANGE = "C11-hint-query-hashes-range-sharded"
+NV = 64
 FULL = (1 << NV) - 1
 
 
@@ -20,7 +21,7 @@ def _rc(b):
     return "repaired" if b else "current"
 
 
-V_NAMES = {i: "batchkey=%s,groupkey=%s,or=%s,and=%s,reset=%s" % (_rc(i & 16), _rc(i & 8), _rc(i & 4), _rc(i & 2), _rc(i & 1))
+V_NAMES = {i: "hintrange=%s,batchkey=%s,groupkey=%s,or=%s,and=%s,reset=%s" % (_rc(i & 32), _rc(i & 16), _rc(i & 8), _rc(i & 4), _rc(i & 2), _rc(i & 1))
            for i in range(NV)}
 AND_CURRENT = sum(1 << i for i in range(NV) if not i & 2)
 
@@ -60,6 +61,16 @@ def cgroup(g):
         "None" if g["trunc"] is None else "(Some %s)" % coq_z(g["trunc"]), shards, cnat_list(g["alive"] or []))
 
 
+def chints(c):
+    """rendered with doubled percent signs (it is spliced into a format string)"""
+    hs = []
+    for h in c.get("hints") or []:
+        tg = "None" if h["err"] else "(Some %s)" % coq_list(
+            ["(%d%%N, %s)" % (t["gid"], coq_list(["%d%%N" % s for s in t["sids"]])) for t in h["targets"]])
+        hs.append("(%s, %s)" % (coq_bool(h["hint"] == 2), tg))
+    return coq_list(hs).replace("%", "%%")
+
+
 def ccase(c):
     cf = c["cfg"]
     groups = c["groups"] or []
@@ -81,9 +92,11 @@ def ccase(c):
                        p["m"], coq_bool(p["newbatch"]), coq_bool(p["conflict"]), ctags(p["tags"] or []), coq_z(p["time"]),
                        coq_list([coq_bool(b) for b in (p["leaf"] or [])]), coq_bool(p["sat"]), routed, hsh))
     ct = "None" if c["condtags"] is None else "(Some %s)" % coq_list([ctags(ts) for ts in c["condtags"]])
-    return ("(let gs := %s in {| cc_msts := %s; cc_qm := %d%%nat; cc_born := %s; cc_cond := %s; cc_points := %s; "
-            "cc_condtags := %s; cc_tmin := %s; cc_tmax := %s; cc_qgroups := %s; cc_targets := %s |})") % (
-        coq_list([cgroup(g) for g in groups]), coq_list(msts), c["qm"], coq_list([coq_z(g["born"]) for g in groups]),
+    rs = c.get("reshard")
+    resh = "(Some (%s, %s))" % (coq_z(rs["split"]), coq_list([cstr(b) for b in rs["bounds"]])) if rs and rs.get("done") else "None"
+    return ("(let gs := %s in {| cc_msts := %s; cc_qm := %d%%nat; cc_born := %s; cc_reshard := %s; cc_cond := %s; cc_points := %s; "
+            "cc_condtags := %s; cc_tmin := %s; cc_tmax := %s; cc_qgroups := %s; cc_targets := %s; cc_hints := " + chints(c) + " |})") % (
+        coq_list([cgroup(g) for g in groups]), coq_list(msts), c["qm"], coq_list([coq_z(2 * g["born"] - 1 if g.get("resh") else 2 * g["born"]) for g in groups]), resh,
         "(Some %s)" % cexpr(c["cond"]) if c["hascond"] else "None",
         coq_list(pts), ct, coq_z(c["tmin"]), coq_z(c["tmax"]), coq_list(["%d%%N" % x for x in c["qgroups"]]),
         coq_list(["(%d%%N, %s)" % (t["gid"], coq_list(["%d%%N" % s for s in t["sids"]])) for t in c["targets"]]))
@@ -336,7 +349,9 @@ def blackbox(ck):
 
 
 CODE_TXT = {1: "row evaluation (eval_cond)", 3: "HashID (XXH64) of the hashed shard-key bytes",
-            4: "span of the created shard group (span_of)", 5: "groups selected by the time range (query_groups)"}
+            4: "span of the created shard group (span_of)", 5: "groups selected by the time range (query_groups)",
+            6: "span / key ranges of the group created by Data.ReSharding (resharded_span, ranges_of)",
+            7: "key ranges of a group created by CreateShardGroup in a range-sharded policy (created_ranges)"}
 
 
 def main(ck):
@@ -361,7 +376,7 @@ def main(ck):
                               "no axioms (Print Assumptions: closed)", "Go harness cmd/c11, python driver props/C11/run.py",
                               "add-only hooks coordinator/verif_export_c11.go, lib/util/lifted/influx/meta/verif_export_c11.go"]
     ck.coq_audit(["C11"])
-    ok = ck.coq_build(["C11/Proofs.vo", "C11/Corr.vo"])
+    ok = ck.coq_build(["C11/Proofs.vo", "C11/ProofsRange.vo", "C11/Corr.vo"])
     if ok:
         ck.coq_props(["C11/Props.v", "C11/Refuted.v"])
     binp = ck.go_build("./cmd/c11", "c11")
@@ -403,7 +418,7 @@ def main(ck):
     # ---- direct oracle on the implementation
     nontriv = set()
     hist = {"label": {}, "typ": {}, "nsk": {}, "ptnum": {}, "dur": {}, "measurements": {}, "batches": {},
-            "measurement_switches_inside_batches": {}, "alter_shardkey": {}, "db_shardkey": {}, "point_err": {}, "split": 0, "nocond": 0}
+            "measurement_switches_inside_batches": {}, "alter_shardkey": {}, "db_shardkey": {}, "resharding": {}, "point_err": {}, "split": 0, "nocond": 0}
     sat_routed = 0
     known_hits = {}
     latent = 0
@@ -420,6 +435,7 @@ def main(ck):
         for k, v in (("label", c["label"]), ("typ", cf["typ"]), ("nsk", len(cf["msts"][c["qm"]]["sk"] or [])), ("ptnum", cf["ptnum"]),
                      ("dur", cf["dur"]), ("measurements", len(cf["msts"])), ("batches", nb),
                      ("measurement_switches_inside_batches", min(mixed, 5)), ("alter_shardkey", c["alter"] is not None),
+                     ("resharding", "none" if not c.get("reshard") else ("done" if c["reshard"].get("done") else "skipped")),
                      ("db_shardkey", "none" if not cf.get("dbsk") else
                       ("db+mst" if (cf["msts"][c["qm"]]["sk"] or []) else "db only"))):
             hist[k][str(v)] = hist[k].get(str(v), 0) + 1
@@ -442,6 +458,18 @@ def main(ck):
                     known_hits[F_DROP] = known_hits.get(F_DROP, 0) + 1
                     if known_hits[F_DROP] == 1:
                         ck.known_finding(F_DROP, "a row is hashed by the shard key of ANOTHER measurement of its write batch: %s" % msg[9:])
+                    continue
+            if msg.startswith("hintprune: hint "):
+                # signature of C11-hint-query-hashes-range-sharded: hinted query, range sharding in force (no database key),
+                # the row lies in a group with at least two shards
+                pi = int(msg.split()[4])
+                p = c["points"][pi]
+                g = [x for x in c["groups"] if x["id"] == p["gid"]]
+                if cf["typ"] == "range" and not cf.get("dbsk") and g and len(g[0]["shards"] or []) >= 2 and ck.match_finding(F_HINT_RANGE):
+                    known_hits[F_HINT_RANGE] = known_hits.get(F_HINT_RANGE, 0) + 1
+                    if known_hits[F_HINT_RANGE] == 1:
+                        ck.known_finding(F_HINT_RANGE, "a hinted query on a range-sharded measurement consults a shard chosen by hash: %s | cond: %s | "
+                                         "key ranges of the group: %s" % (msg[11:], c["condtext"], [(s["min"], s["max"]) for s in g[0]["shards"]]))
                     continue
             if msg.startswith("prune: point "):
                 pi = int(msg.split()[2])
